@@ -49,6 +49,7 @@ var tryList = []string{"s1", "s3"}
 type world struct {
 	r   *rig.Rig
 	sbs map[string]*rig.ScriptedBackend
+	gate *rig.DialGate
 
 	mu     sync.Mutex
 	player string         // the run's player name
@@ -259,6 +260,10 @@ func TestSchedules(t *testing.T) {
 	}
 	defer r.Close()
 	w.r = r
+	w.gate = rig.NewDialGate()
+	if err := r.GateServers(w.gate); err != nil {
+		t.Fatal(err)
+	}
 	tw, err := tracefmt.Create("trace.ndjson")
 	if err != nil {
 		t.Fatal(err)
@@ -362,6 +367,7 @@ func runSchedule(w *world, idx int, sc schedule, seed int64) (recs []tracefmt.Re
 
 	var dmu sync.Mutex
 	done := map[string]bool{}
+	quit := false
 	started := map[string]bool{}
 	attemptOf := map[string]*rig.Attempt{}
 	threads := make([]string, 0, len(sc.Prog))
@@ -373,6 +379,11 @@ func runSchedule(w *world, idx int, sc schedule, seed int64) (recs []tracefmt.Re
 		tn, rq := tn, sc.Prog[tn]
 		ctl.Go(tn, func() {
 			defer func() { dmu.Lock(); done[tn] = true; dmu.Unlock() }()
+			if dmu.Lock(); quit {
+				dmu.Unlock()
+				return // requests not yet made when the client quit are not made
+			}
+			dmu.Unlock()
 			d := 8 * time.Second
 			if rq.Beh == "hang" {
 				d = 900 * time.Millisecond
@@ -457,6 +468,22 @@ func runSchedule(w *world, idx int, sc schedule, seed int64) (recs []tracefmt.Re
 		return nil
 	}
 	const patience = 6 * time.Second
+	dialing := map[string]bool{}
+	// releaseDial lets the held dial of tn's attempt complete and waits for its connection to
+	// park at the backend (or for the request to end some other way)
+	releaseDial := func(tn string) {
+		rq := sc.Prog[tn]
+		dialing[tn] = false
+		w.add(tracefmt.Rec{"ev": "dial", "who": tn, "s": rq.S, "phase": "released"})
+		w.gate.Release(name, rq.S)
+		rig.WaitFor(patience, func() bool {
+			if a := parkedAttempt(rq.S); a != nil {
+				attemptOf[tn] = a
+				return true
+			}
+			return isDone(tn) || ctl.At(tn) != ""
+		})
+	}
 	dirty := false
 	maybeObserve := func() {
 		if dirty && !busy() {
@@ -482,13 +509,14 @@ func runSchedule(w *world, idx int, sc schedule, seed int64) (recs []tracefmt.Re
 				started[tn] = true
 			}
 			if at == "sw.checked" {
+				w.gate.Hold(name, rq.S) // the dial itself is held: no backend connection yet
 				w.mu.Lock()
 				w.expect[rq.S]++
 				w.mu.Unlock()
 			}
 			ctl.Step(tn, 15*time.Millisecond)
 			// wait for the segment to end: parked at the next gate, returned, or (after
-			// sw.checked) blocked in the dial with its connection parked at the backend
+			// sw.checked) blocked in the held dial
 			rig.WaitFor(patience, func() bool {
 				if isDone(tn) {
 					return true
@@ -496,23 +524,33 @@ func runSchedule(w *world, idx int, sc schedule, seed int64) (recs []tracefmt.Re
 				if g := ctl.At(tn); g != "" && !(g == at && at != "start") {
 					return true
 				}
-				if at == "sw.checked" {
-					if a := parkedAttempt(rq.S); a != nil {
-						attemptOf[tn] = a
-						return true
-					}
-				}
-				return false
+				return at == "sw.checked" && w.gate.Parked(name, rq.S)
 			})
-			if at == "sw.checked" && attemptOf[tn] == nil {
-				w.mu.Lock()
-				if w.expect[rq.S] > 0 {
-					w.expect[rq.S]-- // the request did not dial after all
+			if at == "sw.checked" {
+				if w.gate.Parked(name, rq.S) {
+					dialing[tn] = true
+					w.add(tracefmt.Rec{"ev": "dial", "who": tn, "s": rq.S, "phase": "held"})
+				} else {
+					w.gate.Unhold(name, rq.S)
+					w.mu.Lock()
+					if w.expect[rq.S] > 0 {
+						w.expect[rq.S]-- // the request did not dial after all
+					}
+					w.mu.Unlock()
 				}
-				w.mu.Unlock()
 			}
+		case "d":
+			tn := stp.T
+			if !dialing[tn] {
+				info.diverged = true
+				continue
+			}
+			releaseDial(tn)
 		case "b":
 			tn := stp.T
+			if dialing[tn] {
+				releaseDial(tn) // the schedule skipped the dial step
+			}
 			a := attemptOf[tn]
 			if a == nil {
 				info.diverged = true // rejected, or never got that far
@@ -524,6 +562,19 @@ func runSchedule(w *world, idx int, sc schedule, seed int64) (recs []tracefmt.Re
 			}
 			// the backend acts; the calling thread wakes up and parks at sw.reset (or returns)
 			rig.WaitFor(patience, func() bool { return isDone(tn) || ctl.At(tn) != "" })
+		case "quit":
+			dmu.Lock()
+			already := quit
+			quit = true
+			dmu.Unlock()
+			if already {
+				continue
+			}
+			dirty = true
+			w.add(tracefmt.Rec{"ev": "quit"})
+			c.Close()
+			// the proxy notices on its own goroutine: wait until it has torn the player down
+			rig.WaitFor(patience, func() bool { return r.P.PlayerByName(name) == nil })
 		case "kick":
 			o := w.observe(pl, ac)
 			cur, _ := o["current"].(string)
@@ -550,6 +601,7 @@ func runSchedule(w *world, idx int, sc schedule, seed int64) (recs []tracefmt.Re
 	}
 	// free run: release every thread; connections parked by the schedule, and the ones the
 	// remaining requests still open, behave as scripted; anything else (fallbacks) is accepted
+	w.gate.ReleaseAll(name)
 	w.mu.Lock()
 	for k := range w.expect {
 		delete(w.expect, k)
